@@ -212,7 +212,8 @@ static int uriCompose(const char *scheme, const char *user, const char *pass, co
 	}
 
 	if (host != NULL) {
-		count += KSI_snprintf(buf + count, len - count, "%s", host);
+		/* An IPv6 literal has to keep its brackets, otherwise its colons are taken for the port separator. */
+		count += KSI_snprintf(buf + count, len - count, (strchr(host, ':') != NULL) ? "[%s]" : "%s", host);
 	}
 
 	if (port != 0) {
